@@ -51,9 +51,11 @@ struct Outcome {
         if (threw != o.threw) { why = std::string("one side raised: ") + (threw ? what : o.what); return false; }
         if (threw) { if (what != o.what) { why = "different exceptions: " + what + " / " + o.what; return false; } return true; }
         if (iters != o.iters) { why = vf::KS() << "iterations " << iters << " vs " << o.iters; return false; }
-        if (std::memcmp(&resid, &o.resid, sizeof resid)) { why = vf::KS() << std::setprecision(17) << "residual " << resid << " vs " << o.resid; return false; }
-        if (x.size() != o.x.size() || (x.size() && std::memcmp(x.data(), o.x.data(), x.size() * sizeof(double)))) {
-            size_t i = 0; while (i < x.size() && i < o.x.size() && !std::memcmp(&x[i], &o.x[i], sizeof(double))) ++i;
+        // bitwise; two NaNs are equal whatever their sign / payload bits (not a property of the value)
+        auto same_dbl = [](double a, double b) { return (a != a && b != b) || !std::memcmp(&a, &b, sizeof(double)); };
+        if (!same_dbl(resid, o.resid)) { why = vf::KS() << std::setprecision(17) << "residual " << resid << " vs " << o.resid; return false; }
+        size_t i = 0; while (i < x.size() && i < o.x.size() && same_dbl(x[i], o.x[i])) ++i;
+        if (x.size() != o.x.size() || i < x.size()) {
             why = vf::KS() << std::setprecision(17) << "x differs first at " << i << ": " << (i < x.size() ? x[i] : 0.0) << " vs " << (i < o.x.size() ? o.x[i] : 0.0);
             return false;
         }
